@@ -2,10 +2,12 @@ package checks
 
 import (
 	"bytes"
+	"context"
 	"fmt"
 	"github.com/bartossh/Computantis/src/serializer"
 	"math/big"
 	"math/rand"
+	"strings"
 	"time"
 
 	"github.com/bartossh/Computantis/src/accountant"
@@ -397,6 +399,82 @@ func c04Worker(w *core.WorkerCtx) {
 		}
 		world.Deliver(fresh, &base, "original")
 		lastTip = base
+	}
+	c04Sync(w, world, holder, rng, foreign)
+}
+
+// c04Sync: the third way in to a ledger. The holder's own DAG stream is offered to fresh nodes with one vertex altered
+// (the same mutation engine), at the end of the stream, right before it, in the middle and near the start. Whatever
+// the loader reports, the altered vertex must not be part of the node's ledger, and a node that reports itself
+// loaded holds none.
+func c04Sync(w *core.WorkerCtx, world *ledger.World, src *ledger.Node, rng *rand.Rand, foreign *ledger.Actor) {
+	ctx, cancel := context.WithCancel(context.Background())
+	var stream []*accountant.Vertex
+	for v := range src.Book.StreamDAG(ctx) {
+		stream = append(stream, ledger.CloneVertex(v))
+	}
+	cancel()
+	if len(stream) < 6 {
+		w.R.Note("c04 sync: the stream is too short")
+		return
+	}
+	loads := w.Pick(14, 60)
+	for li := 0; li < loads; li++ {
+		pos := len(stream) - 1
+		switch li % 7 {
+		case 1, 4:
+			pos = len(stream) - 2
+		case 2:
+			pos = len(stream) / 2
+		case 5:
+			pos = 1 + rng.Intn(len(stream)-1)
+		}
+		if pos < 1 {
+			pos = 1
+		}
+		base := stream[pos]
+		if base.Hash == world.Genesis.Hash {
+			continue
+		}
+		other := stream[pos-1]
+		muts := c04Mutants(rng, base, other, foreign, false)
+		if len(muts) == 0 {
+			continue
+		}
+		m := &muts[rng.Intn(len(muts))]
+		if ledger.Fingerprint(&m.v) == ledger.Fingerprint(base) {
+			continue
+		}
+		if strings.HasPrefix(m.class, "boundary-shift") || m.class == "receiver-signature-stripped" {
+			continue // the two known findings about what verification itself accepts: judged on the gossip path
+		}
+		alt := make([]*accountant.Vertex, len(stream))
+		copy(alt, stream)
+		mv := m.v
+		alt[pos] = &mv
+		w.Mark("c04 sync load %d: position %d of %d, mutation %s", li, pos, len(stream), m.class)
+		nd, loaded, cause := world.AddLoadedNode(fmt.Sprintf("c04-loaded-%d", li), alt, false)
+		if nd == nil {
+			w.R.Inconc("c04 sync: cannot create a node")
+			return
+		}
+		s, err := ledger.TakeSnap(nd.Book)
+		holds := false
+		if err == nil {
+			for _, l := range s.Live {
+				if ledger.Fingerprint(&l.V) == ledger.Fingerprint(&mv) {
+					holds = true
+				}
+			}
+		}
+		world.Logf("sync of a stream of %d vertices with vertex %d altered by [%s] => loaded=%v cause=%v holds-altered=%v", len(stream), pos, m.desc, loaded, cause, holds)
+		world.EvalFor("C04", 1)
+		world.NontrivFor("C04", fmt.Sprintf("sync/%s/from-end%d/loaded=%v", m.class, min(len(stream)-1-pos, 3), loaded))
+		w.R.Count("c04_sync_loads", 1)
+		if holds {
+			world.Violate("C04", "accepted/sync/"+m.class, fmt.Sprintf("a stream of %d vertices whose vertex %d was altered by [%s] was offered to a joining node (reports loaded=%v): the altered vertex is in its ledger", len(stream), pos, m.desc, loaded))
+		}
+		world.CloseNode(nd)
 	}
 }
 
